@@ -7,7 +7,7 @@ import subprocess
 import time
 import glob as globmod
 
-from .rustsrc import Source, Undecided, mask, match_close, first_body_brace, param_names, brace_depths
+from .rustsrc import Source, Undecided, mask, strip_comments, match_close, first_body_brace, param_names, brace_depths
 from . import rewrite
 
 VERIF = os.path.dirname(os.path.dirname(os.path.abspath(__file__)))
@@ -128,7 +128,7 @@ def build(unit, workdir):
                 key = opts.get("file") or cfg.get("file") or unit.get("default_file")
                 S = src(key)
                 f = S.find_fn(cfg.get("src", fnpath))
-                body = f["body"]
+                body = strip_comments(f["body"])
                 log = {}
                 rules = list(unit.get("rules", [])) if not cfg.get("no_default_rules") else []
                 rules += list(cfg.get("rules", []))
@@ -181,7 +181,7 @@ def build(unit, workdir):
     # labels
     for i, ln in enumerate(g.lines, 1):
         mm = LABEL_RE.search(ln)
-        if mm and g.origin[i - 1][0] != "body":
+        if mm:
             tags = [t.strip() for t in (mm.group(2) or "").split(",") if t.strip()]
             g.labels[i] = (mm.group(1), tags, ln[:mm.start()].strip().rstrip(","))
 
